@@ -179,7 +179,7 @@ def parse_fields(line):
     return d
 
 
-COMPARED = ["SP", "XC", "SK", "EFF", "CHK", "PFC", "EXP", "XEXP"]
+COMPARED = ["VAL", "SP", "XC", "SK", "EFF", "CHK", "PFC", "EXP", "XEXP"]
 
 
 # ------------------------------------------------------------------ independent spec (written from the property text)
@@ -289,6 +289,11 @@ def oracle(case, d):
         fails.append("should_process %s expected %s" % (d["SP"], s["sp"]))
     if (d["XC"] == "1") != s["excluded"]:
         fails.append("is_content_excluded %s expected %s" % (d["XC"], s["excluded"]))
+    # configuration gate: thresholds in [0,1] and every absolute warn point strictly below its limit
+    t = unbits(case.cfg.wt)
+    valid = (0.0 <= t <= 1.0) and (case.cfg.wa is None or case.cfg.wa < case.cfg.max) and all(r.wa is None or r.wa < r.max for r in case.cfg.rules)
+    if (d["VAL"] == "1") != valid:
+        fails.append("validate_config_semantics %s expected %s" % (d["VAL"], valid))
     # explain coherence: explain (same checker) reports exactly what check applied
     if ex["pathdiff"] or xex["pathdiff"]:
         fails.append("explain reports a different path")
@@ -394,23 +399,41 @@ def boundary_counts(rng, limit, warn):
 
 
 def split_count(rng, count, sc, sb):
-    """Raw stats whose effective count is `count` under the given skip flags."""
+    """Raw stats whose effective count is `count` under the given skip flags (all sums stay below 2^63)."""
     parts = 1 + (0 if sc else 1) + (0 if sb else 1)
     cuts = sorted(rng.randint(0, count) for _ in range(parts - 1))
     vals = [b - a for a, b in zip([0] + cuts, cuts + [count])]
     code = vals[0]
+    big = count >= 2 ** 40
     k = 1
     if sc:
-        comment = rng.choice([0, 1, 7, count + 5])
+        comment = rng.choice([0, 1, 7] if big else [0, 1, 7, count + 5])
     else:
         comment = vals[k]
         k += 1
     if sb:
-        blank = rng.choice([0, 2, 9, count + 3])
+        blank = rng.choice([0, 2, 9] if big else [0, 2, 9, count + 3])
     else:
         blank = vals[k]
-    ignored = rng.choice([0, 0, 1, 5, count + 1, 1000])
+    ignored = rng.choice([0, 0, 1, 5, 1000] if big else [0, 0, 1, 5, count + 1, 1000])
     return (code + comment + blank + ignored, code, comment, blank, ignored)
+
+
+def run_impl(exe, lines, timeout=1200):
+    """run_sharded with a retry for unanswered lines: the shared cargo target directory may be re-linked by a
+    concurrent build, during which the binary is briefly absent or truncated. A line that stays unanswered
+    after the retries is a genuine death of the harness and is returned as <NOANSWER>."""
+    import time
+    outs, errs = run_sharded(exe, lines, timeout=timeout)
+    for attempt in range(4):
+        missing = [i for i, o in enumerate(outs) if o == "<NOANSWER>"]
+        if not missing:
+            return outs, []
+        time.sleep(3 + 5 * attempt)
+        o2, errs = run_sharded(exe, [lines[i] for i in missing], timeout=timeout)
+        for i, o in zip(missing, o2):
+            outs[i] = o
+    return outs, errs
 
 
 def prepare_threshold(ctx):
